@@ -479,8 +479,9 @@ def run_check(pid, tier, a):
         "wall_s": wall,
         "violations": len(uniq),
     }
-    os.makedirs(os.path.join(VERIF, "evidence"), exist_ok=True)
-    with open(os.path.join(VERIF, "evidence", "%s.json" % pid), "w") as f:
+    evdir = os.environ.get("VERIF_EVIDENCE_DIR") or os.path.join(VERIF, "evidence")  # tools/seedcheck.sh redirects it for mutant runs
+    os.makedirs(evdir, exist_ok=True)
+    with open(os.path.join(evdir, "%s.json" % pid), "w") as f:
         json.dump(evidence, f, indent=1, sort_keys=True, default=_json_default)
         f.write("\n")
     print("%s tier=%s seed=%s evaluations=%d distinct_nontrivial=%d discards=%d wall=%.1fs" % (pid, tier, seed, total.evaluations, len(total.nontrivial_hashes), sum(total.discards.values()), wall))
